@@ -589,7 +589,8 @@ def R4_state_model(ctx):
             oku = all(tb.dominates(c.bb, rb) for rb in tb.return_blocks())
         else:
             lp = innermost_loop(tb, c.bb)
-            oku = lp is not None and lp[0] not in tb.reach_from_succs(lp[0], removed_blocks=[c.bb]) or (lp is not None and all(is_err_value(v) for (x_, y_) in loop_exit_edges(tb, lp[1]) for _, v in region_value(tb, (x_, y_)) if False))
+            # loop form: no turn of the loop over the new entries gets back to the loop head without passing the insert
+            oku = lp is not None and lp[0] not in tb.reach_from_succs(lp[0], removed_blocks=[c.bb])
         ctx.check(oku, "extend:insert-unconditional", "a new entry is inserted only under a condition (e.g. only when the name is not present yet): the later declaration of a feature would be dropped silently", c.where(), detail="map.insert(name, new) for every entry")
     rows = [r for r in table(eb, max_paths=100000) if r.end == "return"]
     okr = any(result_variant(r.ret) == "Ok" for r in rows) and any(result_variant(r.ret) == "Err" for r in rows)
@@ -620,6 +621,13 @@ def R4_state_model(ctx):
             # `_ => Err` arms are grouped under an 'otherwise' label
             others = [v for kk, v in got.items() if isinstance(kk, tuple)]
             okv = "Ok" in got.get(variant, set()) and all(v == {"Err"} for kk, v in got.items() if kk != variant)
+            # a value of the format's own kind always round-trips: the only refusal inside the own variant is a negative value
+            # for the unsigned format (the slot holds a float; -3 is a legitimate signed value and must read back as -3)
+            refused = [r for r in table(fb_) if r.end == "return" and r.sel.get(SELF) == variant and is_err_value(r.ret)]
+            if k != "u64" or op == "encode":
+                okv = okv and not refused
+            else:
+                okv = okv and all(any(f[0] == "Lt" and contains(f[1], lambda q: q == ("arg", 2)) for f in r.facts) for r in refused)
             ctx.check(okv, "format:%s_%s" % (op, k), "%s_%s accepts %s (expected only %s)" % (op, k, {str(kk): v for kk, v in got.items()}, variant), fb_.where(), detail=variant)
 
 
